@@ -364,6 +364,11 @@ class C14(Lab):
             for k in [k for k in sys.modules if k == pkgname or k.startswith(pkgname + ".")]:
                 del sys.modules[k]
             sel = None
+            e_ = locals().get("err")
+            while e_ is not None:
+                e_.__traceback__ = None
+                e_ = e_.__context__
+            err = None
             gc.collect()
 
     def drive_run(self, sel, n, case):
